@@ -14,6 +14,7 @@ from onl.scheduler.rr import RR
 from onl.scheduler.wrr import WRR
 import onl.netdev.wire as wire_mod
 from vlib.util import bits, run_driver, split_cases, quiet
+from harness import dynsched, dynport
 
 ASSUMPTIONS = [
     'flows are configured in every scheduler of the pipeline; weights/priorities/vticks/rates > 0; sizes positive integers; `out` attached everywhere',
@@ -116,6 +117,136 @@ def run_gen(c):
     elif any(p.time != t_ or p.flow_id != c['flow'] or p.src != 'peer' for t_, p in plog):
         fails.append({'what': 'fields (time/flow/src) of the packets of a second generator with the same flow id are wrong', 'signature': 'generator-fields'})
     return impl, text, fails
+
+
+# ---------------------------------------------------------------------------------------------------
+# (A') generator whose distributions are re-pointed while it runs - ORACLE-ONLY (the generator model takes one list of draws)
+
+ASSUMPTIONS.append('generator cases with re-pointed distributions (oracle-only): another process assigns `arrival_dist` / `size_dist` during the run (now and then also once after '
+                   'construction, before the run); "packet n at initial_delay plus the n-th partial sum of its inter-arrival draws with the n-th drawn size" is read with the '
+                   'distribution installed at the instant each draw is made - the next gap is drawn when the previous packet is emitted (the first one when the initial '
+                   'delay has passed), the size when the packet is emitted; a case in which an assignment falls into the very instant of a draw is not judged')
+
+
+def genre_case(rng, cid):
+    """profiles: scripted cyclic draw sequences with value ranges of their own (sizes of profile k lie in [1000k+40, 1000k+999]), so that a
+    draw taken from the wrong profile shows; profile 0 is handed to the constructor"""
+    nprof = rng.randint(2, 4)
+    prof = []
+    for k in range(nprof):
+        gaps = [rng.choice([0.5, 1, 1, 2, 0.25, 0.125, 0.75, 3, round(rng.random() * 3 + 0.01, 3)]) for _ in range(rng.randint(1, 5))]
+        if rng.random() < 0.2:
+            gaps.append(0)
+        prof.append({'gaps': gaps, 'sizes': [1000 * k + rng.randint(40, 999) for _ in range(rng.randint(1, 4))]})
+    sw = []
+    for _ in range(rng.randint(1, 4)):
+        sw.append({'at': round(rng.choice([0.3, 1.1, 2.7, 3.2, 4.45, 6.9, 9.35, 12.6]) + rng.random() * 0.05, 4), 'what': rng.choice(['arrival', 'size', 'both', 'both']),
+                   'profile': rng.randrange(nprof)})
+    sw.sort(key=lambda x: x['at'])
+    c = {'cid': f'gr{cid}', 'kind': 'genre', 'initial': rng.choice([0, 0, 0.5, 1, 2.75]), 'finish': rng.choice([5.5, 8, 10, 15, 20]), 'flow': rng.randrange(4),
+         'profiles': prof, 'switches': sw, 'pre': None}
+    if rng.random() < 0.2:
+        c['pre'] = {'what': rng.choice(['arrival', 'size', 'both']), 'profile': rng.randrange(nprof)}      # assigned after construction, before the run
+    return c
+
+
+def run_genre(c):
+    """-> (oracle failures, stats)"""
+    env = Environment()
+    draws = []                                   # (instant, 'arrival' | 'size', profile, value) in the order the generator took them
+
+    class Dist:
+        def __init__(self, what, k):
+            self.what, self.k, self.n = what, k, 0
+            self.vals = c['profiles'][k]['gaps' if what == 'arrival' else 'sizes']
+        def __call__(self):
+            v = self.vals[self.n % len(self.vals)]
+            self.n += 1
+            draws.append((env.now, self.what, self.k, v))
+            return v
+
+    dists = {(w, k): Dist(w, k) for w in ('arrival', 'size') for k in range(len(c['profiles']))}
+    g = DistPacketGenerator(env, 'src', dists['arrival', 0], dists['size', 0], initial_delay=c['initial'], finish=c['finish'], flow_id=c['flow'])
+    log = []
+    g.out = Rec(env, log)
+
+    def install(sw):
+        if sw['what'] in ('arrival', 'both'):
+            g.arrival_dist = dists['arrival', sw['profile']]
+        if sw['what'] in ('size', 'both'):
+            g.size_dist = dists['size', sw['profile']]
+    if c.get('pre'):
+        install(c['pre'])
+
+    def operator():
+        t0 = 0.0
+        for sw in c['switches']:
+            yield env.timeout(sw['at'] - t0)
+            t0 = sw['at']
+            install(sw)
+    env.process(operator())
+    raised = None
+    try:
+        env.run(until=1e6)
+    except BaseException as x:
+        raised = repr(x)
+    stats = collections.Counter()
+    if raised:
+        return [{'what': f'the generator run raised {raised}', 'signature': 'generator-raised'}], stats
+
+    # the law, with the distribution installed at the instant of each draw
+    def installed(what, t):
+        k = 0
+        if c.get('pre') and c['pre']['what'] in (what, 'both'):
+            k = c['pre']['profile']
+        for sw in c['switches']:
+            if sw['what'] not in (what, 'both'):
+                continue
+            if sw['at'] == t:
+                return None
+            if sw['at'] < t:
+                k = sw['profile']
+        return k
+    used = collections.Counter()
+    t = 0 + c['initial']
+    want, n = [], 0
+    while t < c['finish'] and n < 10000:
+        ka = installed('arrival', t)
+        if ka is None:
+            stats['not judged: an assignment in the very instant of a draw'] += 1
+            return [], stats
+        vals = c['profiles'][ka]['gaps']
+        gap = vals[used['arrival', ka] % len(vals)]; used['arrival', ka] += 1
+        t = t + gap
+        ks = installed('size', t)
+        if ks is None:
+            stats['not judged: an assignment in the very instant of a draw'] += 1
+            return [], stats
+        vals = c['profiles'][ks]['sizes']
+        size = vals[used['size', ks] % len(vals)]; used['size', ks] += 1
+        n += 1
+        want.append((n, t, size, ka, ks))
+    got = [(p.packet_id, t_, p.size) for t_, p in log]
+    stats['packets'] += len(got)
+    first_sw = min(sw['at'] for sw in c['switches'])
+    stats['packets emitted after the first assignment'] += sum(1 for _, t_, _ in got if t_ > first_sw)
+    stats['draws from a profile installed during the run'] += sum(1 for w in want if w[3] or w[4])
+    fails = []
+    if got != [w[:3] for w in want]:
+        i = next((i for i in range(max(len(got), len(want))) if i >= len(got) or i >= len(want) or got[i] != want[i][:3]), 0)
+        g_i, w_i = (got[i] if i < len(got) else None), (want[i] if i < len(want) else None)
+        taken = [d for d in draws if w_i and d[0] in (w_i[1], want[i - 1][1] if i else 0 + c['initial'])]
+        fails.append({'what': f'generator with distributions re-pointed while running (assignments: '
+                              f'{[(sw["at"], sw["what"], "profile %d" % sw["profile"]) for sw in c["switches"]]}'
+                              f'{", before the run: " + str(c["pre"]) if c.get("pre") else ""}): packet #{i + 1} was emitted as (id, time, size) = {g_i}; with the '
+                              f'gap drawn from the arrival distribution installed at the instant the gap is drawn - the emission of the previous packet, the end of the initial delay for the first - (profile {w_i[3] if w_i else None}) and the size from '
+                              f'the size distribution installed at the emission (profile {w_i[4] if w_i else None}) it is {w_i[:3] if w_i else None}; the draws the generator '
+                              f'actually took around it (instant, which, profile, value): {taken[:4]}', 'signature': 'generator-law-reconfigured'})
+    for t_, p in log:
+        if p.time != t_ or p.flow_id != c['flow'] or p.src != 'src':
+            fails.append({'what': 'generator packet fields (time/flow/src) wrong', 'signature': 'generator-fields'})
+            break
+    return fails, stats
 
 
 # ---------------------------------------------------------------------------------------------------
@@ -595,10 +726,13 @@ def run(ctx):
         n = 300 if ctx.quick else 6000
         cases = [gen_case(rng, i) for i in range(n)] + [sink_case(rng, i) for i in range(n)] + [pipe_case(rng, i) for i in range(n)]
         cases += [switch_case(rng, i) for i in range(n // 3)]
+        cases += [genre_case(rng, i) for i in range(n // 6)]          # oracle-only (counted apart below)
     impl, text, dis, orc = {}, [], [], []
     hist = collections.Counter()
     owner = {}
     npk = 0
+    cases_dyn = [c for c in cases if str(c.get('kind', '')).startswith('dyn:')]        # (a replay of a ring case: run by the families at the end)
+    cases = [c for c in cases if c not in cases_dyn]
     for c in cases:
         hist['kind:' + c['kind']] += 1
         if c['kind'] == 'gen':
@@ -608,6 +742,9 @@ def run(ctx):
             a, t, f = run_sink(c); impl.update(a); text += t
             hist['sink:with_second_sink_in_the_same_environment'] += 1 if c.get('peer') else 0
             for k in a: owner[k] = c
+        elif c['kind'] == 'genre':
+            f, st = run_genre(c)
+            for kk, v in st.items(): hist['genre:' + kk] += v
         elif c['kind'] == 'switches':
             f, st = run_switches(c)
             for kk, v in st.items(): hist['switch_packets:' + kk] += v
@@ -625,15 +762,24 @@ def run(ctx):
         for x in f:
             x['case'] = c
             orc.append(x)
+    # rings (oracle-only): the element's next hop hands packets straight back to its put() from inside its own put() - a loop in the topology without a
+    # Store in between, a reflector, a closed-loop source - or re-labels them; all six schedulers and the Port; conservation clause only
+    # (and `out` re-pointed to another device while the element runs: "forwarded downstream" = to the device `out` names at the hand-over)
+    ring_s = dynsched.run_family(ctx, 'C08', dynsched.KINDS, ['reflect', 'reflect', 'relabel', 'out'], ['conserve'], 60, 1200)
+    ring_p = dynport.run_family(ctx, 'C08', ['reflect', 'reflect', 'out'], ['conserve'], 24, 480)
+    orc += ring_s['oracle_failures'] + ring_p['oracle_failures']
     model = split_cases(run_driver('gensink', '\n'.join(text) + '\n'))
     for cid, a in impl.items():
         b = model.get(cid)
         if a != b:
             dis.append({'case': owner[cid], 'detail': f'{cid}: impl {a[:3]} model {(b or [])[:3]}', 'impl': a[:50], 'model': (b or [])[:50]})
     samples = [c for c in cases if c['kind'] == 'pipe'][:2]
-    nontriv = len({json.dumps(c, sort_keys=True, default=str) for c in cases if c['kind'] != 'pipe' or len(c['chain']) > 1 or c['fan']})
-    cov = {'evaluations': len(cases), 'distinct_nontrivial': nontriv,
+    nontriv = len({json.dumps(c, sort_keys=True, default=str) for c in cases if c['kind'] != 'genre' and (c['kind'] != 'pipe' or len(c['chain']) > 1 or c['fan'])})
+    n_oracle_only = sum(1 for c in cases if c['kind'] == 'genre')
+    cov = {'evaluations': len(cases) - n_oracle_only, 'distinct_nontrivial': nontriv,
            'rule': 'generator scripts, sink delivery scripts and random pipelines (chains of 1-4 elements from 10 kinds, optional FlowDemux / FIBDemux fan-out/fan-in, the FIBDemux with a route update during the run); non-trivial = distinct case (pipelines: more than one element or a fan-out); oracle-only cases with 2-3 packet switches alive in one process',
            'samples': samples, 'traces_validated_against_impl': len(impl) - len(dis), 'packets_through_pipelines': npk,
-           'operation_histogram': dict(sorted(hist.items()))}
+           'operation_histogram': dict(sorted(hist.items())),
+           'oracle_only': {'generators_with_distributions_re-pointed_while_running': n_oracle_only,
+                           'rings_schedulers': ring_s['coverage'], 'rings_port': ring_p['coverage']}}
     return {'coverage': cov, 'disagreements': dis, 'oracle_failures': orc}
